@@ -162,7 +162,11 @@ func RunC02(env *sim.Env) {
 	if t.Choose(250) == 7 {
 		debug.SetMaxStack(64 << 20)
 		n := []int{2000, 30000, 250000}[t.Choose(3)]
-		switch t.Choose(3) {
+		switch t.Choose(4) {
+		case 3:
+			// nothing nested in anything: one if with as many else-if branches as fit
+			br := dc.l + "else if 1" + dc.r + "x"
+			src = dc.l + "if 1" + dc.r + "0" + strings.Repeat(br, n/len(br)) + dc.l + "end" + dc.r
 		case 0:
 			src = dc.l + strings.Repeat("!", n) + "x" + dc.r
 		case 1:
